@@ -44,7 +44,10 @@ TAdv ==
     /\ Advance(Ev.d) /\ now' = Ev.t
     /\ retained' = SetOf(Ev.vers)
 
-TNext == TReset \/ TLookup \/ TUpdate \/ TAdv
+\* many other transactions were first seen now (their answers are not part of this history)
+TBurst == Consume("burst") /\ retained' = SetOf(Ev.vers) /\ UNCHANGED <<now, cur, content, loaded, hyp, last>>
+
+TNext == TReset \/ TLookup \/ TUpdate \/ TAdv \/ TBurst
 
 TraceSpec == TInit /\ [][TNext]_tvars
 
